@@ -33,6 +33,7 @@ impl<'c> Body for SeqBody<'c> {
     {
         let case = self.case;
         hooks::reset_env(case.fault);
+        crate::interp::set_keep_going(case.keep_going);
         let mut stashes: Vec<Vec<I::Item>> = case.threads.iter().map(|_| Vec::new()).collect();
         let mut completed = vec![];
         for (tid, ops) in case.threads.iter().enumerate() {
